@@ -230,4 +230,260 @@ theorem removeGo_exclusive (s : Nat) (b e off : Int) (cells : List Cell)
       · simp [h1] at hxs
       · exact ih hok x hx hxs hxb
 
+
+/-! ## Causal.shift (key rows) -/
+
+theorem has_ropeCell (s t : Nat) (b off : Int) (c : Cell) : (ropeCell s b off c).has t = c.has t := by
+  unfold ropeCell; split <;> rfl
+
+theorem pos_ropeCell (s : Nat) (b off : Int) (c : Cell) : (ropeCell s b off c).pos = c.pos := by
+  unfold ropeCell; split <;> rfl
+
+def ropeEntry (b off : Int) (x : Int × Tok × Int) : Int × Tok × Int :=
+  if b ≤ x.1 then (x.1, x.2.1, x.2.2 + off) else x
+
+theorem rope_view_self (s : Nat) (b off : Int) (cells : List Cell) :
+    view (cells.map (ropeCell s b off)) s = (view cells s).map (ropeEntry b off) := by
+  induction cells with
+  | nil => rfl
+  | cons c cs ih =>
+    simp only [List.map_cons, view_cons, has_ropeCell, ih]
+    by_cases h : c.has s
+    · simp only [h, if_true, List.map_cons]
+      congr 1
+      unfold ropeCell ropeEntry Cell.key
+      by_cases hb : b ≤ c.pos <;> simp [h, hb]
+    · simp [h]
+
+theorem rope_view_other (s t : Nat) (h : t ≠ s) (b off : Int) (cells : List Cell)
+    (hex : ∀ c ∈ cells, c.has s = true → b ≤ c.pos → c.sharedBeyond s = false) :
+    view (cells.map (ropeCell s b off)) t = view cells t := by
+  induction cells with
+  | nil => rfl
+  | cons c cs ih =>
+    have ih := ih (fun x hx => hex x (List.mem_cons_of_mem _ hx))
+    simp only [List.map_cons, view_cons, has_ropeCell, ih]
+    by_cases ht : c.has t
+    · simp only [ht, if_true]
+      congr 1
+      unfold ropeCell
+      by_cases hc : (c.has s && decide (b ≤ c.pos)) = true
+      · simp only [Bool.and_eq_true, decide_eq_true_eq] at hc
+        have := not_shared_other c s t h (hex c (List.mem_cons_self ..) hc.1 hc.2)
+        rw [this] at ht; cases ht
+      · simp [hc]
+    · simp [ht]
+
+theorem rope_bound (s : Nat) (b off : Int) (cells : List Cell) (hb : PosBound cells) :
+    PosBound (cells.map (ropeCell s b off)) := by
+  intro c hc
+  obtain ⟨x, hx, rfl⟩ := List.mem_map.mp hc
+  rw [pos_ropeCell]; exact hb x hx
+
+/-! ## Causal.CopyPrefix -/
+
+theorem has_append_seq (c : Cell) (d t : Nat) :
+    Cell.has { c with seqs := c.seqs ++ [d] } t = (c.has t || t == d) := by
+  unfold Cell.has
+  rw [Bool.eq_iff_iff]
+  simp [List.contains_iff_mem]
+
+theorem copyCell_has_other (src dst t : Nat) (n : Int) (c : Cell) (h : t ≠ dst) :
+    (copyCell src dst n c).has t = c.has t := by
+  unfold copyCell
+  simp only
+  split
+  · rw [has_append_seq, has_dropSeq_other c dst t h]; simp [h]
+  · exact has_dropSeq_other c dst t h
+
+theorem copyCell_key (src dst : Nat) (n : Int) (c : Cell) : (copyCell src dst n c).key = c.key := by
+  unfold copyCell; simp only; split <;> rfl
+
+theorem copyCell_has_dst (src dst : Nat) (n : Int) (c : Cell) (h : src ≠ dst) :
+    (copyCell src dst n c).has dst = (c.has src && decide (c.pos < n)) := by
+  unfold copyCell
+  simp only
+  have h1 : (c.dropSeq dst).has src = c.has src := has_dropSeq_other c dst src h
+  have h2 : (c.dropSeq dst).pos = c.pos := rfl
+  split
+  · next hc => rw [has_append_seq]; rw [h1, h2] at hc; simp [hc]
+  · next hc => rw [has_dropSeq_self]; rw [h1, h2] at hc; simp at hc ⊢; exact hc
+
+theorem copy_view_other (src dst t : Nat) (n : Int) (h : t ≠ dst) (cells : List Cell) :
+    view (copyPrefix cells src dst n) t = view cells t := by
+  unfold copyPrefix
+  induction cells with
+  | nil => rfl
+  | cons c cs ih => simp only [List.map_cons, view_cons, copyCell_has_other src dst t n c h, copyCell_key, ih]
+
+theorem copy_view_dst (src dst : Nat) (n : Int) (h : src ≠ dst) (cells : List Cell) :
+    view (copyPrefix cells src dst n) dst = (view cells src).filter (fun x => decide (x.1 < n)) := by
+  unfold copyPrefix
+  induction cells with
+  | nil => rfl
+  | cons c cs ih =>
+    simp only [List.map_cons, view_cons, copyCell_has_dst src dst n c h, copyCell_key, ih]
+    by_cases h1 : c.has src
+    · by_cases h2 : c.pos < n
+      · have : c.key.1 < n := h2
+        simp [h1, h2, List.filter_cons, this]
+      · have : ¬ c.key.1 < n := h2
+        simp [h1, h2, List.filter_cons, this]
+    · simp [h1]
+
+theorem copy_bound (src dst : Nat) (n : Int) (cells : List Cell) (hb : PosBound cells) :
+    PosBound (copyPrefix cells src dst n) := by
+  intro c hc
+  obtain ⟨x, hx, rfl⟩ := List.mem_map.mp hc
+  have : (copyCell src dst n x).pos = x.pos := by unfold copyCell; simp only; split <;> rfl
+  rw [this]; exact hb x hx
+
+/-! ## StartForward + Put -/
+
+theorem view_free (cells : List Cell) (s : Nat) (h : ∀ c ∈ cells, c.seqs = []) : view cells s = [] := by
+  induction cells with
+  | nil => rfl
+  | cons c cs ih =>
+    have hc : c.has s = false := by simp [Cell.has, h c (List.mem_cons_self ..)]
+    simp [view_cons, hc, ih (fun x hx => h x (List.mem_cons_of_mem _ hx))]
+
+/-- storing a batch into free cells appends its entries to each sequence's view (up to order) -/
+theorem store_view (cells : List Cell) (loc : Nat) (batch : List BTok) (s : Nat)
+    (hfree : ∀ c ∈ (cells.drop loc).take batch.length, c.seqs = []) :
+    (view (store cells loc batch) s).Perm (view cells s ++ view (batch.map BTok.cell) s) := by
+  have hsplit : cells = cells.take loc ++ ((cells.drop loc).take batch.length ++ cells.drop (loc + batch.length)) := by
+    rw [← List.drop_drop, List.take_append_drop, List.take_append_drop]
+  have hv : view cells s = view (cells.take loc) s ++ view (cells.drop (loc + batch.length)) s := by
+    conv => lhs; rw [hsplit]
+    simp [view_append, view_free _ s hfree]
+  unfold store
+  rw [view_append, view_append, hv, List.append_assoc, List.append_assoc]
+  exact List.Perm.append_left _ List.perm_append_comm
+
+theorem store_bound (cells : List Cell) (loc : Nat) (batch : List BTok) (hb : PosBound cells)
+    (hp : ∀ t ∈ batch, (t.pos : Int) < maxI32) : PosBound (store cells loc batch) := by
+  intro c hc
+  unfold store at hc
+  rcases List.mem_append.mp hc with hc | hc
+  · rcases List.mem_append.mp hc with hc | hc
+    · exact hb c (List.mem_of_mem_take hc)
+    · obtain ⟨t, ht, rfl⟩ := List.mem_map.mp hc
+      exact ⟨Int.natCast_nonneg _, hp t ht⟩
+  · exact hb c (List.mem_of_mem_drop hc)
+
+/-! ## the canonical view -/
+
+theorem canonFrom_append (k : Nat) (a b : List Tok) :
+    canonFrom k (a ++ b) = canonFrom k a ++ canonFrom (k + a.length) b := by
+  induction a generalizing k with
+  | nil => simp [canonFrom]
+  | cons x xs ih => simp [canonFrom, ih, Nat.add_assoc, Nat.add_comm 1]
+
+theorem canonFrom_mem (k : Nat) (l : List Tok) :
+    ∀ x ∈ canonFrom k l, (k : Int) ≤ x.1 ∧ x.1 < (k : Int) + l.length := by
+  induction l generalizing k with
+  | nil => intro x hx; cases hx
+  | cons t ts ih =>
+    intro x hx
+    simp only [canonFrom, List.mem_cons] at hx
+    rcases hx with rfl | hx
+    · simp only [List.length_cons]; omega
+    · have := ih (k + 1) x hx
+      simp only [List.length_cons]; omega
+
+theorem filter_all {α} (p : α → Bool) (l : List α) (h : ∀ x ∈ l, p x = true) : l.filter p = l :=
+  List.filter_eq_self.mpr h
+
+theorem filter_none {α} (p : α → Bool) (l : List α) (h : ∀ x ∈ l, p x = false) : l.filter p = [] := by
+  apply List.filter_eq_nil_iff.mpr
+  intro x hx; simp [h x hx]
+
+/-- cutting the canonical view at position `m` is the canonical view of the first `m` inputs -/
+theorem canon_filter_lt (l : List Tok) (m : Nat) :
+    (canon l).filter (fun x => decide (x.1 < (m : Int))) = canon (l.take m) := by
+  unfold canon
+  conv => lhs; rw [← List.take_append_drop m l, canonFrom_append]
+  rw [List.filter_append]
+  have h1 : (canonFrom 0 (l.take m)).filter (fun x => decide (x.1 < (m : Int))) = canonFrom 0 (l.take m) := by
+    apply filter_all
+    intro x hx
+    have := canonFrom_mem 0 _ x hx
+    have hl : (l.take m).length ≤ m := List.length_take_le _ _
+    simp only [decide_eq_true_eq]; omega
+  have h2 : (canonFrom (0 + (l.take m).length) (l.drop m)).filter (fun x => decide (x.1 < (m : Int))) = [] := by
+    by_cases hm : m ≤ l.length
+    · apply filter_none
+      intro x hx
+      have := canonFrom_mem _ _ x hx
+      have hl : (l.take m).length = m := by simp [List.length_take, hm]
+      simp only [decide_eq_false_iff_not]; omega
+    · have : l.drop m = [] := List.drop_eq_nil_of_le (by omega)
+      simp [this, canonFrom]
+  rw [h1, h2, List.append_nil]
+
+/-- a shifting Remove + RoPE shift on one entry -/
+def shiftEntry (b e off : Int) (x : Int × Tok × Int) : Option (Int × Tok × Int) :=
+  if b ≤ x.1 ∧ x.1 < e then none else if e ≤ x.1 then some (x.1 + off, x.2.1, x.2.2 + off) else some x
+
+theorem shift_low (b e off : Int) (hbe : b ≤ e) (k : Nat) (l : List Tok) (h : (k : Int) + l.length ≤ b) :
+    (canonFrom k l).filterMap (shiftEntry b e off) = canonFrom k l := by
+  induction l generalizing k with
+  | nil => rfl
+  | cons t ts ih =>
+    simp only [List.length_cons] at h
+    have h1 : shiftEntry b e off ((k : Int), t, (k : Int)) = some ((k : Int), t, (k : Int)) := by
+      unfold shiftEntry
+      have h2 : ¬ ((b ≤ (k : Int)) ∧ (k : Int) < e) := by omega
+      have h3 : ¬ (e ≤ (k : Int)) := by omega
+      simp [h2, h3]
+    simp only [canonFrom, List.filterMap_cons, h1]
+    rw [ih (k + 1) (by omega)]
+
+theorem shift_mid (b e off : Int) (k : Nat) (l : List Tok) (h1 : b ≤ (k : Int))
+    (h2 : (k : Int) + l.length ≤ e) : (canonFrom k l).filterMap (shiftEntry b e off) = [] := by
+  induction l generalizing k with
+  | nil => rfl
+  | cons t ts ih =>
+    simp only [List.length_cons] at h2
+    have h3 : shiftEntry b e off ((k : Int), t, (k : Int)) = none := by
+      unfold shiftEntry
+      have : (b ≤ (k : Int)) ∧ (k : Int) < e := by omega
+      simp [this]
+    simp only [canonFrom, List.filterMap_cons, h3]
+    exact ih (k + 1) (by omega) (by omega)
+
+theorem shift_high (b e : Int) (d : Nat) (hbe : b ≤ e) (k : Nat) (l : List Tok) (h1 : e ≤ (k : Int)) (hd : d ≤ k) :
+    (canonFrom k l).filterMap (shiftEntry b e (-(d : Int))) = canonFrom (k - d) l := by
+  induction l generalizing k with
+  | nil => rfl
+  | cons t ts ih =>
+    have h3 : shiftEntry b e (-(d : Int)) ((k : Int), t, (k : Int)) = some (((k - d : Nat) : Int), t, ((k - d : Nat) : Int)) := by
+      unfold shiftEntry
+      have h4 : ¬ ((b ≤ (k : Int)) ∧ (k : Int) < e) := by omega
+      have h5 : ((k - d : Nat) : Int) = (k : Int) + -(d : Int) := by omega
+      simp [h4, h1, h5]
+    simp only [canonFrom, List.filterMap_cons, h3]
+    rw [ih (k + 1) (by omega) (by omega)]
+    have : k + 1 - d = k - d + 1 := by omega
+    rw [this]
+
+/-- a successful context shift maps the canonical view of the record to the canonical view of the
+    shifted record -/
+theorem canon_shift (l : List Tok) (keep d : Nat) (h : keep + d ≤ l.length) :
+    (canon l).filterMap (shiftEntry (keep : Int) ((keep : Int) + d) (-(d : Int)))
+      = canon (l.take keep ++ l.drop (keep + d)) := by
+  unfold canon
+  have hsplit : l = l.take keep ++ ((l.drop keep).take d ++ l.drop (keep + d)) := by
+    rw [← List.drop_drop, List.take_append_drop, List.take_append_drop]
+  have hA : (l.take keep).length = keep := by simp [List.length_take]; omega
+  have hM : ((l.drop keep).take d).length = d := by simp [List.length_take, List.length_drop]; omega
+  conv => lhs; rw [hsplit]
+  rw [canonFrom_append, canonFrom_append, List.filterMap_append, List.filterMap_append, canonFrom_append]
+  rw [shift_low _ _ _ (by omega) 0 _ (by omega)]
+  rw [shift_mid _ _ _ _ _ (by omega) (by omega)]
+  rw [shift_high _ _ d (by omega) _ _ (by omega) (by omega)]
+  simp only [List.nil_append, hA, hM]
+  congr 2
+  omega
+
 end OllamaVerif.Runner
